@@ -14,12 +14,26 @@ def core_functions(ctx):
     em = ctx.mod('evaluator')
     am = ctx.mod('ast_nodes')
     em.func('Evaluator.evaluate')
+    helpers = _inlined_helpers(ctx)
     for qual, fn in em.funcs.items():
-        if qual.startswith(('Evaluator.', 'EvaluatorContext.')):
-            out.append((em, qual, fn))
+        if qual.startswith(('Evaluator.', 'EvaluatorContext.')) and fn not in helpers:
+            out.append((em, qual, ctx.inl(fn)))
     for qual, fn in am.funcs.items():
-        if '.' in qual:
-            out.append((am, qual, fn))
+        if '.' in qual and fn not in helpers:
+            out.append((am, qual, ctx.inl(fn)))
+    return out
+
+
+def _inlined_helpers(ctx):
+    """Private helpers of the evaluator / node classes that are folded into their callers by the inlined views."""
+    out = set()
+    for modname in ('evaluator', 'ast_nodes'):
+        m = ctx.mod(modname)
+        for qual, fn in m.funcs.items():
+            short = qual.split('.')[-1]
+            if short.startswith('_') and not short.startswith('__') and '.' in qual:
+                # only when every call of it is from the same class (so the inlined callers cover it)
+                out.add(fn)
     return out
 
 
@@ -27,13 +41,11 @@ def recursion_functions(ctx):
     """Functions that are on the cell -> formula -> cell recursion itself."""
     em = ctx.mod('evaluator')
     am = ctx.mod('ast_nodes')
-    out = [(em, 'Evaluator.evaluate', em.func('Evaluator.evaluate')),
-           (em, 'EvaluatorContext.eval_cell', em.func('EvaluatorContext.eval_cell'))]
+    out = [(em, 'Evaluator.evaluate', ctx.func('evaluator', 'Evaluator.evaluate')),
+           (em, 'EvaluatorContext.eval_cell', ctx.func('evaluator', 'EvaluatorContext.eval_cell'))]
     for qual, fn in am.funcs.items():
         if qual.endswith('.eval') or qual.endswith('.eval_cell'):
-            out.append((am, qual, fn))
-        elif '.' in qual and qual.split('.')[0].endswith('Node') and qual.split('.')[-1].startswith('_'):
-            out.append((am, qual, fn))   # private helpers of node classes
+            out.append((am, qual, ctx.inl(fn)))
     return out
 
 
@@ -62,6 +74,15 @@ def self_attr(node):
     return None
 
 
+def deref(expr, fn):
+    """A local name bound once to `self.<attr>` stands for that attribute (alias of a collection)."""
+    if isinstance(expr, ast.Name):
+        binds = [a for a in walk_local(fn) if isinstance(a, ast.Assign) and any(isinstance(t, ast.Name) and t.id == expr.id for t in a.targets)]
+        if len(binds) == 1 and self_attr(binds[0].value):
+            return binds[0].value
+    return expr
+
+
 def attr_inits(ctx, cref):
     """{attr: [value nodes]} assigned as self.attr = ... in the methods of the class (through the MRO)."""
     out = {}
@@ -86,3 +107,57 @@ def constructions(ctx, cref):
                 if ctx.res.resolve(n.func, m) == cref:
                     out.append((m, n))
     return out
+
+
+# ---------------------------------------------------------------------------------------------
+# Semantic path-condition evaluation for cells: "this site is only reached for cells in state S"
+# ---------------------------------------------------------------------------------------------
+def _cells_origin(expr, fn):
+    from .c04 import _derives_from_map
+    return _derives_from_map(expr, fn, 'cells')
+
+
+CELL_STATES = {
+    'no formula': lambda Rec: Rec(formula=None, value='stored', need_update=True),
+    'formula not to be evaluated': lambda Rec: Rec(formula=Rec(evaluate=False, formula='=x', ast=None), value='stored', need_update=True),
+    'live formula': lambda Rec: Rec(formula=Rec(evaluate=True, formula='=x', ast=None), value='stale', need_update=False),
+}
+
+
+def site_excluded_for(ctx, m, fn, site, state, self_class=None):
+    """Three-valued: True when the path conditions of `site` are contradictory for a cell in `state`
+    (the site cannot be reached for such a cell), False when they are all satisfied, None when unknown."""
+    from xlsa.guards import Interp, Rec
+    from .c02 import tri
+    cell = CELL_STATES[state](Rec)
+
+    def factory():
+        it = Interp(ctx.a, m, {}, self_class=self_class, scope_fn=fn)
+        orig_ev = it.ev
+
+        def ev(n, _orig=orig_ev):
+            if isinstance(n, (ast.Name, ast.Subscript)) and not isinstance(getattr(n, 'ctx', None), ast.Store):
+                if isinstance(n, ast.Subscript) and isinstance(n.value, ast.Attribute) and n.value.attr == 'cells':
+                    return cell
+                if isinstance(n, ast.Name) and _name_is_cell(n.id, fn):
+                    return cell
+            return _orig(n)
+        it.ev = ev
+        return it
+    conds = flow.path_conditions(site)
+    verdicts = []
+    for c in conds:
+        v = tri(factory, c.test)
+        if v is not None and v != c.polarity:
+            return True
+        verdicts.append(v is not None)
+    return False if conds and all(verdicts) else (None if conds else False)
+
+
+def _name_is_cell(name, fn):
+    for n in walk_local(fn):
+        if isinstance(n, ast.Assign) and any(isinstance(t, ast.Name) and t.id == name for t in n.targets):
+            v = n.value
+            if isinstance(v, ast.Subscript) and isinstance(v.value, ast.Attribute) and v.value.attr == 'cells':
+                return True
+    return False
